@@ -91,7 +91,8 @@ impl Family for C19Family {
                     } else {
                         let mut s = gen_ga(&mut r, rp);
                         s.allow = allow;
-                        s.up = true;
+                        // one in five is a silent (up=false) assertion: it spends a counter value like any other
+                        s.up = !r.chance(1, 5);
                         OpKind::GetAssertion(s)
                     }
                 } else if r.chance(1, 4) {
@@ -163,7 +164,7 @@ impl Family for C19Family {
         if scn.batch == "enumerated" {
             stats.count("enumerated_interleavings_judged", 1);
         }
-        for p in ["overlapping_assertions_same_credential", "stale_snapshot_written_back", "register_overlaps_assert", "three_actors"] {
+        for p in ["overlapping_assertions_same_credential", "stale_snapshot_written_back", "register_overlaps_assert", "three_actors", "silent_assertion_on_counter_credential"] {
             stats.declare_probe(p);
         }
         if rec.panic.is_some() {
@@ -201,6 +202,9 @@ impl Family for C19Family {
             let kind = &op_spec(c, o).kind;
             if matches!(kind, OpKind::Authenticate(_) | OpKind::GetAssertion(_)) && o.result.is_ok() {
                 let signer = signer_of(kind, o, rec.initial_store.iter().chain(rec.final_store.iter())).map(|s| s.id.clone());
+                if matches!(kind, OpKind::GetAssertion(g) if !g.up) {
+                    stats.probe("silent_assertion_on_counter_credential");
+                }
                 if let (Some(id), Some(ctr)) = (signer.or_else(|| returned_id(o)), reported_counter(o)) {
                     by_cred.entry(id).or_default().push((o.actor, o.idx, ctr));
                 }
